@@ -55,15 +55,15 @@ var Table = map[string]row{
 	"cir":   {all, "r", "single-operand right shift (assembler and HDL take one register)"},
 	"cirn":  {small, "r", "single-operand right shift"},
 	// multi-step in both back-ends: a retire is the step/cycle in which the program counter moves
-	"addp":  {all, "rr", "pipelined addition (put/get phases in both)"},
-	"multp": {all, "rr", "pipelined multiplication"},
-	"divp":  {all, "rr", "pipelined division; comparison stops before a division by zero"},
-	"addf":  {f32, "rr", "float32 addition on the FPU IP; operands and result kept to zero / normal finite numbers"},
-	"multf": {f32, "rr", "float32 multiplication; same restriction"},
-	"divf":  {f32, "rr", "float32 division; same restriction, divisor non-zero"},
-	"jgt0f": {f32, "rloc", "jump when the float register is > 0 (register kept to zero / normal finite numbers)"},
+	"addp":   {all, "rr", "pipelined addition (put/get phases in both)"},
+	"multp":  {all, "rr", "pipelined multiplication"},
+	"divp":   {all, "rr", "pipelined division; comparison stops before a division by zero"},
+	"addf":   {f32, "rr", "float32 addition on the FPU IP; operands and result kept to zero / normal finite numbers"},
+	"multf":  {f32, "rr", "float32 multiplication; same restriction"},
+	"divf":   {f32, "rr", "float32 division; same restriction, divisor non-zero"},
+	"jgt0f":  {f32, "rloc", "jump when the float register is > 0 (register kept to zero / normal finite numbers)"},
 	"r2owaa": {all, "rout", "register to output (simulator: plain copy)"},
-	"addi":  {small, "r", "sum of all inputs into a register; Simulate has 8/16 branches only"},
+	"addi":   {small, "r", "sum of all inputs into a register; Simulate has 8/16 branches only"},
 	"ro2rri": {all, "rr", "register-indirect ROM read; the address register is kept < program length"},
 }
 
@@ -76,7 +76,7 @@ var Waiting = map[string]bool{"i2rw": true, "r2owa": true, "addp": true, "multp"
 // Out lists the opcodes that are NOT compared and why (documentation for the evidence).
 var Out = map[string]string{
 	"m2rri": "rule (c): the HDL reads the processor RAM (ram_addr/ram_dout), the simulator reads the program ROM",
-	"sub": "simulator stub (PC+1 only)", "r2m": "simulator stub", "r2mri": "simulator stub", "m2r": "simulator stub (PC never advanced)",
+	"sub":   "simulator stub (PC+1 only)", "r2m": "simulator stub", "r2mri": "simulator stub", "m2r": "simulator stub (PC never advanced)",
 	"ro2r": "simulator stub", "cmpr": "simulator stub", "cmprlt": "simulator stub", "cmpv": "simulator stub", "hlt": "simulator stub",
 	"je": "simulator stub", "hit": "needs barrier shared object", "dpc": "simulator stub", "expf": "simulator stub",
 	"chc": "needs channel", "chw": "needs channel", "wrd": "needs channel", "wwr": "needs channel",
